@@ -253,6 +253,55 @@ def run(ctx):
             A.norm_cmp(a[0], a[1], a[2], lambda e: A.is_name(e, CN))) for a in ats)
     rep.ob('P6', K.key(cls, '__iter__', 'overflow-loop:while-withheld>max_buffered_examples'), ok, ov[0] if ov else loop,
            '' if ok else 'buckets must be released while the number of withheld examples exceeds max_buffered_examples')
+    # ---------------- P7 every element passes the expiry and the overflow check
+    from ..cfg import CFG as _CFG, normal as _normal
+    g = _CFG(fn)
+    head = [nd for nd in g.nodes if nd.kind == 'for' and nd.ast is loop and not nd.tag][0]
+    for attr, what in (('expiration', 'expiry'), ('max_buffered_examples', 'overflow')):
+        tests = {nd.id for nd in g.nodes if nd.kind in ('test', 'while') and any(A.is_self_attr(x, attr) for x in ast.walk(nd.ast.test))}
+        if not tests:
+            rep.ob('P7', K.key(cls, '__iter__', '%s-check-on-every-element' % what), False, loop, 'no test of self.%s in the loop' % attr)
+            continue
+        bad = None
+        for (y, k) in g.succ[head.id]:
+            if k == 'loop':
+                bad = g.path_avoiding(y, lambda nd: nd.id == head.id, lambda nd: nd.id in tests, edge_ok=_normal) or (
+                    None if y not in tests else None)
+        rep.ob('P7', K.key(cls, '__iter__', '%s-check-on-every-element' % what), bad is None, bad[-2].ast if bad and len(bad) > 1 else loop,
+               '' if bad is None else 'a path through one element returns to the loop head without reaching the %s check '
+               '(self.%s): on that step an overdue bucket is kept / the buffer limit is not enforced' % (what, attr),
+               path=[repr(x) for x in bad if x.ast is not None] if bad else None)
+    # ---------------- P8 bounds of a time-series bucket only tighten
+    ts0 = ctx.repo.cls('core.DynamicTimeSeriesBucket')
+    for mname, mem_ in ts0.members.items():
+        if not mem_.is_function or mname == '__init__':
+            continue
+        for n in A.walk_local(mem_.node):
+            if isinstance(n, (ast.Assign, ast.AugAssign)):
+                tg = n.targets[0] if isinstance(n, ast.Assign) else n.target
+                for attr, fn_name in (('lower_bound', 'max'), ('upper_bound', 'min'), ('max_len', 'max')):
+                    if A.is_self_attr(tg, attr):
+                        v = n.value if isinstance(n, ast.Assign) else None
+                        ok8 = isinstance(v, ast.Call) and A.dotted(v.func) == fn_name and any(A.is_self_attr(a, attr) for a in v.args) \
+                            and len(v.args) == 2
+                        rep.ob('P8', K.key(ts0, mname, 'bound-only-tightens(%s=%s(old,new))' % (attr, fn_name)), ok8, n,
+                               '' if ok8 else 'self.%s is assigned %s instead of %s(self.%s, ...): adding an example can loosen '
+                               'the window, so a later example outside the padding-rate bound of an earlier member is accepted'
+                               % (attr, A.short(v) if v is not None else 'in place', fn_name, attr))
+    ap_ts = ts0.own('_append')
+    if ap_ts is not None:
+        upd = {a for n in A.walk_local(ap_ts.node) if isinstance(n, ast.Assign) for a in ('lower_bound', 'upper_bound', 'max_len')
+               if A.is_self_attr(n.targets[0], a) and not flow.guards_of(n, ap_ts.node)}
+        rep.ob('P8', K.key(ts0, '_append', 'all-bounds-updated-unconditionally'), upd == {'lower_bound', 'upper_bound', 'max_len'},
+               ap_ts.node, '' if upd == {'lower_bound', 'upper_bound', 'max_len'} else
+               'every appended example must tighten lower_bound, upper_bound and max_len unconditionally (updated: %s)' % sorted(upd))
+    ass = ts0.own('assess')
+    if ass is not None:
+        rets_ = [r for r in flow.returns_of(ass.node) if r.value is not None]
+        ok8 = len(rets_) == 1 and isinstance(rets_[0].value, ast.Compare) and len(rets_[0].value.ops) == 2 \
+            and all(isinstance(o, ast.LtE) for o in rets_[0].value.ops) and A.is_self_attr(rets_[0].value.left, 'lower_bound') \
+            and A.is_self_attr(rets_[0].value.comparators[1], 'upper_bound')
+        rep.ob('P8', K.key(ts0, 'assess', 'accepts-iff-lower<=len<=upper'), ok8, ass.node, '')
     # ---------------- P3 final flush
     after = fn.body[fn.body.index(loop) + 1:]
     fl = [l for l in after if isinstance(l, ast.For) and A.is_name(l.iter, B)]
